@@ -25,8 +25,14 @@ def run(tier, seed):
     vlib.run([exe, "random", str(seed), str(6000 if quick else 80000), "index", tr], timeout=1200)
     vlib.trace_leg(rep, "Trace_RayCast.tla", "Trace_RayCast.cfg", tr, "index",
                    "constructor + computeCellIndexes + computeCellCenterPosition on random extents (dyadic and decimal units, float/double, 2D/3D)")
+    # leg 4: generic (non-lattice) grids, among them single-precision grids with more than a million cells along one axis: the
+    # relations of C13 as residuals bounded by the specification (GenericOK)
+    tr = os.path.join(W, "generic.ndjson")
+    vlib.run([exe, "random", str(seed), str(3000 if quick else 60000), "generic", tr], timeout=1800)
+    vlib.trace_leg(rep, "Trace_RayCast.tla", "Trace_RayCast.cfg", tr, "generic",
+                   "real-valued bounds and resolutions, up to 8e6 cells (one axis up to 2.4e6 cells), float/double, 2D/3D: residuals of the C13 relations")
     rep.assumptions += ["coordinates are whole multiples of resolution/R, R in {2,4,8} (cell centres, borders, sub-cell points)",
-                        "extents within +-1000 and <= 4e6 units per axis (float: <= 6e4 units)",
+                        "lattice legs: extents within +-1000 and <= 4e6 units per axis (float: <= 6e4 units); generic leg: any real bounds / resolutions of the quantified range, residual bound 8 roundings of the largest coordinate",
                         "decimal units: a point exactly on a cell border, or a bound that is an exact multiple of the resolution, "
                         "may be attributed to either side (binary rounding of the quotient); centres exact to 16 ulps of the largest coordinate"]
     return rep.finish()
